@@ -2,7 +2,7 @@
    reads back every rendering of every expression tree; evaluation equals ordinary arithmetic. *)
 From Coq Require Import String.
 From Coq Require Import List Ascii Bool NArith ZArith QArith Lia Arith.
-Require Import Model.Text Model.ParamTypes Model.Num Model.NumLex Gen.Params Model.Expr Spec.ArithSpec.
+Require Import Model.Text Model.ParamTypes Model.Num Model.NumLex Gen.PExpr Gen.PGuards Model.Expr Spec.ArithSpec.
 Import ListNotations.
 Local Open Scope nat_scope.
 
